@@ -1,4 +1,4 @@
-\* thorough: 2 nodes, 3 entries, 1 restart, 1 snapshot sync
+\* thorough: 2 nodes, 3 entries, 1 restart, 1 snapshot sync, <=3 leadership signals, endpoint up
 SPECIFICATION Spec
 CONSTANTS
   Node = {n1, n2}
@@ -7,11 +7,12 @@ CONSTANTS
   BatchSz = 2
   InCap = 0
   AsyncHWM = FALSE
-  MaxFlips = 99
+  SigCap = 2
+  MaxFlips = 3
   MaxLeaders = 1
   MaxRestarts = 1
   MaxSnaps = 1
-  MaxDowns = 99
+  MaxDowns = 0
   OneGroupPerEntry = TRUE
   LabelEveryGroup = TRUE
   KeyByHighest = TRUE
@@ -20,7 +21,8 @@ CONSTANTS
   HWMAfterSendOK = TRUE
   PruneToHWMOnly = TRUE
   RewindCursor = TRUE
+  ParkedKeptUntilSent = TRUE
   RestartHWMBelowLowest = TRUE
   DropReapplied = TRUE
 SYMMETRY Sym
-INVARIANTS TypeOK Labelled NoSkip TenureOrder TakenStored KeysBounded
+INVARIANTS TypeOK Labelled NoSkip TenureOrder TakenStored KeysBounded LoopShape
